@@ -584,6 +584,15 @@ void simrt_irq_plan(uint32_t n, uint32_t max_gap)
 	rt.irq_next_at = rt.points + 1 + (n ? rt.irq_gap[0] : 0);
 }
 
+void simrt_irq_set_gap(uint32_t i, uint32_t gap)
+{
+	if (i < 32) {
+		rt.irq_gap[i] = gap;
+		if (i == 0 && rt.irq_fired == 0)
+			rt.irq_next_at = rt.points + 1 + gap;
+	}
+}
+
 /* ------------------------------------------------------------------------ */
 /* atomic log                                                               */
 /* ------------------------------------------------------------------------ */
